@@ -141,8 +141,9 @@ class C19(Prop):
                     # structurally equal values at several places, mappings in permuted key order, and
                     # near-equal scalars (1, 1.0, true, "1"): conversion must treat every occurrence on its own
                     maps = [e for e in params["m"] if G.is_map(e[1]) and len(e[1]["m"]) >= 2]
-                    if not maps:
-                        params["m"].append(["tw0", {"m": [["p", G.I(1)], ["q", "x"], ["r", [G.I(1)]]]}])
+                    if not maps or r.chance(1, 2):
+                        nent = r.choice([3, 4, 5, 8, 17, 40])
+                        params["m"].append(["tw0", {"m": [["p", G.I(1)], ["q", "x"], ["r", [G.I(1)]]] + [["e%02d" % z, G.I(z)] for z in range(nent - 3)]}])
                         maps = [params["m"][-1]]
                     src = r.choice(maps)[1]
                     for k in range(r.range(1, 3)):
